@@ -8,6 +8,7 @@ rewritten threshold is accepted only with a MAC collision. (E): statistical stat
 sampled coefficients / absence of secrets in the report bytes are measured by the oracle on the
 implementation and reported as evidence, not as theorems.
 -/
+import StarModel.Lemmas.Skeleton
 import StarModel.Lemmas.Adss
 import StarModel.Props.C05
 
